@@ -182,12 +182,14 @@ def updateSections (d : T2) : T2 := { d with sections := updateSectionsL (presen
 
 /-! ### generators -/
 
+/-- `self.generator[key] = obj`: an existing key keeps its position -/
+def gdSet : List ((Str × Str) × Nat) → Str × Str → Nat → List ((Str × Str) × Nat)
+  | [], k, v => [(k, v)]
+  | (k', v') :: r, k, v => if k' == k then (k', v) :: r else (k', v') :: gdSet r k v
+
 /-- `add_generator` -/
 def addGenerator (d : T2) (g : Gener) : T2 :=
-  { d with gens := d.gens ++ [g],
-           gendict := if d.gendict.any (·.1 == (g.block, g.name))
-                      then d.gendict.map (fun e => if e.1 == (g.block, g.name) then (e.1, g.id) else e)
-                      else d.gendict ++ [((g.block, g.name), g.id)] }
+  { d with gens := d.gens ++ [g], gendict := gdSet d.gendict (g.block, g.name) g.id }
 
 /-- `generator_index` then `del self.generator[key]`, `del self.generatorlist[i]` -/
 def deleteGenerator (d : T2) (key : Str × Str) : T2 × Option Exc :=
